@@ -24,6 +24,16 @@ PROGS = {
     'P14': [step('async', 1, status='s1', cmd='continue', next=2, args=['v1', 'v2']), step('async', 1, cmd='stop', val='v5')],
 }
 
+# C13: chains exercising every command with positional/keyword arguments and resume values
+PROGS.update({
+    'P20': [step(cmd='continue', next=2, args=['v1', 'v2'], kw=[['x', 'v3']]), step(cmd='continue', next=3, kw=[['x', 'v4'], ['y', 'v5']]),
+            step(cmd='unsucc', val='v9')],
+    'P21': [step(cmd='wait', next=2, val='w1'), step(cmd='continue', next=3, args=['v1']), step(cmd='kill', val='bye')],
+    'P22': [step('async', 1, cmd='continue', next=2, args=['v1'], kw=[['x', 'v3']]), step(cmd='wait', next=3, val='w1'),
+            step('async', 1, cmd='stop', val='v0')],
+    'P23': [step(cmd='continue', next=2, args=['v0']), step(cmd='stop', val='-')],
+})
+
 ALL_REQUESTS = ['kill', 'pause', 'play', 'resume', 'fail', 'cancel', 'cbok', 'cbraise']
 
 
@@ -37,7 +47,7 @@ def family(names, out_missing=()):
 
 
 def mc_module(name, progs, plans=((),), fixes=(), alphabet=ALL_REQUESTS, k=2, extra_defs='', cfg_extra='',
-              base='ProcessProps', spec='Spec'):
+              base='ProcessProps', spec='Spec', overrides=()):
     """progs: list of {'name','steps','outMissing'}; plans: list of plans (each a list of plan entries)."""
     tla = '---- MODULE %s ----\nEXTENDS %s\n' % (name, base)
     tla += 'MCProgs == %s\n' % tlaval.emit(list(progs))
@@ -48,5 +58,7 @@ def mc_module(name, progs, plans=((),), fixes=(), alphabet=ALL_REQUESTS, k=2, ex
     tla += '====\n'
     cfg = 'SPECIFICATION %s\nCHECK_DEADLOCK FALSE\nCONSTANTS\n Progs <- MCProgs\n Plans <- MCPlans\n Fixes <- MCFixes\n' % spec
     cfg += ' Alphabet <- MCAlphabet\n K = %d\n' % k
+    for lhs, rhs in overrides:
+        cfg += ' %s <- %s\n' % (lhs, rhs)
     cfg += cfg_extra
     return tla, cfg
